@@ -434,6 +434,7 @@ before `let stake_per_bin =`
         proof { assert(rr > 0 ==> q + 1 <= tt) by (nonlinear_arith) requires nn * q + rr == tt, nn >= 1, q >= 1 {} }
 before `verif_push_at(&mut bin_validators, current_bin, v.id);`
         proof {
+            // [C17.bins_differ_by_at_most_one_unit] the size chosen for the CURRENT bin: floor(total / bins), one more for the first total % bins
             assert(stake_per_bin.0 == cap(q, rr, current_bin as int));
             lemma_partial_le_total(stakes, verif_i as int);
             // room is left in the current bin: otherwise it is the last bin and everything has been assigned already
